@@ -8,6 +8,7 @@ from os.path import join
 from os.path import splitext
 import os
 import ast
+import tokenize
 import re
 from collections import deque, OrderedDict
 from xdoctest import utils
@@ -741,7 +742,9 @@ def parse_static_calldefs(source=None, fpath=None):
                 source = file_.read().decode('utf-8')
         except Exception:
             try:
-                with open(fpath, 'rb') as file_:
+                # Not utf-8: decode the way the interpreter would (encoding
+                # cookie or byte order mark)
+                with tokenize.open(fpath) as file_:
                     source = file_.read()
             except Exception:
                 print('Unable to read fpath = {!r}'.format(fpath))
